@@ -5,6 +5,9 @@
 #include "spaces.hpp"  // defines VERIF_K, VERIF_GROUPS, VERIF_FAMS, VERIF_CTLS and struct Space
 
 #include "../engine/pipeline.hpp"
+#ifdef VERIF_TREE
+#include "../engine/tree.hpp"
+#endif
 
 #include <algorithm>
 
@@ -146,8 +149,16 @@ static void one_execution( const Case& c, const std::vector< int >& pre, bool ve
    verif_c03 = 0;
    Real r;
    fault_armed = 1;
+#ifdef VERIF_TREE
+   TR::TreeResult tree;
+#endif
    if( sigsetjmp( fault_jmp, 1 ) == 0 ) {
+#ifdef VERIF_TREE
+      tree = TR::run_tree( c.cfg, in, S.fuel );
+      r = tree.r;
+#else
       r = run_impl( c.cfg, in, S.fuel );
+#endif
       fault_armed = 0;
    }
    else {
@@ -187,6 +198,17 @@ static void one_execution( const Case& c, const std::vector< int >& pre, bool ve
          if( ch >= '0' && ch <= '9' ) ch = '#';
       report( exc ? S.exc_prop : S.result_prop, S.check_positions ? "match result differs from the reference (rule outcome depends on a position counter): " + cls : cls, c, j );
    }
+#ifdef VERIF_TREE
+   // ---- the parse tree is the surviving derivation of the selected rules (C12)
+   if( ( r.kind == Real::OK ) != tree.has_tree ) report( "C12", "a tree is returned although the parse did not succeed (or vice versa)", c );
+   if( tree.has_tree && o.k == R::OK ) {
+      const auto want = TR::expected_tree( RI );
+      if( !tree.root_ok ) report( "C12", "root node is not the typeless content-free root", c );
+      if( !tree.problems.empty() ) report( "C12", "parse tree node carries an inconsistent position", c, tree.problems );
+      if( !( want == tree.nodes ) ) report( "C12", "tree differs from the surviving derivation of the selected rules", c, "want " + TR::show( want ) + "| got " + TR::show( tree.nodes ) );
+      if( !want.empty() ) vf::count( "executions_with_nonempty_tree" );
+   }
+#endif
    // ---- limits leave no residue (C18)
 #ifdef VERIF_DEPTH_INPUT
    if( in.current_depth() != 0 ) report( "C18", "depth counter not back to its initial value after the run", c, std::string( "outcome " ) + real_name( r.kind ) );
